@@ -519,6 +519,46 @@ def cases(seed: int = 0, thorough: bool = False):
                         (lambda x, fn=fn, cv=cv, npx=npx: fn(npx(x), cv)) if order == 0 else
                         (lambda x, fn=fn, cv=cv, npx=npx: fn(cv, npx(x))),
                         {"x": xf}, "constant-operand", always_execute=(order == 0 and inner != "x"))
+    # n-ary constructors with operands of DIFFERENT dtypes, both orders: the declared dtype is the promotion of ALL
+    # operands (a dtype taken from the first operand truncates the others in the generated code)
+    for d1, d2 in [("int32", "float64"), ("float64", "complex128"), ("bool", "int8"), ("float32", "int64")]:
+        for da, db in ((d1, d2), (d2, d1)):
+            p, q = _arr(rng, (2, 3), da), _arr(rng, (2, 3), db)
+            if np.dtype(db).kind == "f":
+                q = q + 0.25
+            if np.dtype(da).kind == "f":
+                p = p + 0.25
+            io = {"x": p, "y": q}
+            add(f"mixed-dtype:stack:{da},{db}", lambda x, y: pt.stack([x, y]), lambda x, y: np.stack([x, y]), io, "remap")
+            add(f"mixed-dtype:stack-axis1:{da},{db}", lambda x, y: pt.stack([x, y, x], axis=1), lambda x, y: np.stack([x, y, x], axis=1), io, "remap")
+            add(f"mixed-dtype:concatenate:{da},{db}", lambda x, y: pt.concatenate([x, y], axis=1),
+                lambda x, y: np.concatenate([x, y], axis=1), io, "remap")
+            add(f"mixed-dtype:where:{da},{db}", lambda x, y: pt.where(pt.greater(x, 0), x, y), lambda x, y: np.where(x > 0, x, y), io, "binary")
+            add(f"mixed-dtype:einsum:{da},{db}", lambda x, y: pt.einsum("ij,ij->i", x, y), lambda x, y: np.einsum("ij,ij->i", x, y), io, "contract")
+    # stacked matmul of MIXED RANK with batch axes of DIFFERENT lengths (they align from the right), rank 5 @ 3, unit
+    # batch axes that broadcast, 1-d operands; dot / vdot
+    for s1, s2 in [((2, 3, 2, 4), (3, 4, 5)), ((3, 4, 5), (2, 3, 5, 2)), ((3, 3, 2, 4), (3, 4, 2)), ((2, 1, 3, 2, 4), (3, 4, 2)),
+                   ((2, 3, 2, 4), (1, 4, 3)), ((1, 2, 4), (2, 3, 4, 2)), ((2, 3, 2, 4), (4,)), ((4,), (2, 3, 4, 2)), ((2, 3, 4, 2), (2, 3))]:
+        a, b = _arr(rng, s1, "float64"), _arr(rng, s2, "float64")
+        add(f"matmul-mixed-rank-batch:{s1}@{s2}", lambda x, y: x @ y, lambda x, y: x @ y, {"x": a, "y": b}, "contract")
+    for s1, s2 in [((2, 3, 4), (4,)), ((3, 4), (4,)), ((4,), (4,)), ((2, 3, 4), (2, 4, 3)), ((2, 2, 3, 4), (3, 4, 2)), ((), (3, 4))]:
+        a, b = _arr(rng, s1, "float64"), _arr(rng, s2, "float64")
+        add(f"dot-mixed-rank:{s1},{s2}", lambda x, y: pt.dot(x, y), lambda x, y: np.dot(x, y), {"x": a, "y": b}, "contract")
+    for s1, s2 in [((6,), (6,)), ((2, 3), (6,)), ((2, 3), (3, 2))]:
+        a, b = _arr(rng, s1, "complex128"), _arr(rng, s2, "complex128")
+        add(f"vdot:{s1},{s2}", lambda x, y: pt.vdot(x, y), lambda x, y: np.vdot(x, y), {"x": a, "y": b}, "contract")
+    # advanced indexing with TWO OR MORE slices next to the index arrays (rank 4 / 5)
+    a4i = _arr(rng, (3, 4, 2, 6), "int64")
+    a5i = _arr(rng, (2, 3, 4, 2, 3), "int64")
+    ii, jj = np.array([0, -1, 1]), np.array([1, -2, 0])
+    for lbl, mk in {"i,:,j,:": lambda x, i, j: x[i, :, j, :], ":,i,:,j": lambda x, i, j: x[:, i, :, j],
+                    "i,:,j,1:6:2": lambda x, i, j: x[i, :, j, 1:6:2], "i,1:,j,::-1": lambda x, i, j: x[i, 1:, j % 2, ::-1],
+                    ":,:,i,j": lambda x, i, j: x[:, :, i % 2, j], "i,j,:,:": lambda x, i, j: x[i, j, :, :],
+                    "::2,i,:,j": lambda x, i, j: x[::2, i, :, j]}.items():
+        add(f"advindex-two-slices:4d:{lbl}", mk, mk, {"x": a4i, "i": ii, "j": jj}, "index", exact=True)
+    for lbl, mk in {"i,:,j,:,:": lambda x, i, j: x[i % 2, :, j, :, :], ":,i,:,j,:": lambda x, i, j: x[:, i, :, j % 2, :],
+                    ":,i,1:,:,j": lambda x, i, j: x[:, i, 1:, :, j], "i,:,:,j,::2": lambda x, i, j: x[i % 2, :, :, j % 2, ::2]}.items():
+        add(f"advindex-two-slices:5d:{lbl}", mk, mk, {"x": a5i, "i": ii, "j": jj}, "index", exact=True)
     # sparse
     dense = np.array([[0., 2., 0., 1.], [3., 0., 0., 0.], [0., 0., 0., 0.], [0., 4., 5., 0.]])
     rows, cols = np.nonzero(dense)
